@@ -140,9 +140,10 @@ class Policy:
                 export is off (then nothing may be created anywhere)
     """
 
-    def __init__(self, read_dirs: List[str], outdir: Optional[str]) -> None:
+    def __init__(self, read_dirs: List[str], outdir: Optional[str], input_path: Optional[str] = None) -> None:
         self.read_dirs = [os.path.realpath(d) for d in read_dirs]
         self.outdir = os.path.realpath(outdir) if outdir else None
+        self.input_path = os.path.realpath(input_path) if input_path else None   # the document itself, when given by name
 
     def classify(self, ev: Dict[str, Any]) -> Tuple[str, str]:
         """-> (verdict, kind); verdict in {"ok", "ignore", "violation"}."""
@@ -167,6 +168,8 @@ class Policy:
                 return "ok", "create_in_outdir"
             if any(inside(d, real) and real != d for d in self.read_dirs):
                 return "ok", "read_resource"
+            if self.input_path is not None and real == self.input_path:
+                return "ok", "read_input"
             if ev["importing"]:
                 return "ignore", "import_read"
             return "violation", "open_outside"
